@@ -8,3 +8,4 @@ import Rp2.Props.C05
 #print axioms Rp2.C05.ie_never
 #print axioms Rp2.C05.generic_configured
 #print axioms Rp2.C05.generic_takes_configured_value
+#print axioms Rp2.C05.source_long_term_test_is_the_models
